@@ -19,11 +19,16 @@ use std::sync::atomic::{AtomicBool, AtomicU64, AtomicUsize, Ordering};
 use std::sync::{Arc, Condvar, Mutex};
 use std::time::Duration;
 use zipora::memory::verif_sched as vs;
+use zipora::memory::five_level_pool::{AdaptiveFiveLevelPool, ConcurrencyLevel, FiveLevelPoolHandle};
+use zipora::memory::lockfree_pool::LockFreeAllocation;
 use zipora::memory::{
     BackoffStrategy, FiveLevelPoolConfig, FixedCapacityAllocation, FixedCapacityMemoryPool, FixedCapacityPoolConfig,
     LockFreeMemoryPool, LockFreePool, LockFreePoolConfig, MemOffset, MemoryPool, MutexBasedPool, PoolConfig,
     SecureMemoryPool, SecurePoolConfig, SecurePooledPtr, ThreadLocalPool,
 };
+
+#[path = "c08_wide.rs"]
+mod wide;
 
 const HEADER: &str = r#"From ZV.Common Require Import Base Run.
 From ZV.C08 Require Import Model ModelFixedCap ModelSecure ModelMemPool Cases.
@@ -45,6 +50,15 @@ enum Op {
     Scribble(usize, Option<u32>),
     /// a foreign heap allocation of the size of a stack node (secure pool: lets the allocator reuse addresses)
     Malloc,
+    /// k blocks through the pool's bulk entry point (allocate_bulk_simd / allocate_bulk_with_prefetch); not in the Coq models
+    Bulk(usize),
+    /// allocation through the "hinted" entry point (SecureMemoryPool::allocate_with_hint(true)); plain allocation elsewhere
+    Hot,
+    /// the pool's clear() (SecureMemoryPool, MemoryPool): pooled chunks are released, handed-out ones stay valid; not in the Coq models
+    Clear,
+    /// the observers of the pool and of the blocks this thread holds (validate / size / generation / capacity accessors /
+    /// statistics helpers), called in the middle of the history; they change nothing
+    Check,
 }
 fn op_str(o: &Op) -> String {
     match o {
@@ -53,12 +67,20 @@ fn op_str(o: &Op) -> String {
         Op::Scribble(k, Some(j)) => format!("S{}:{}", k, j),
         Op::Scribble(k, None) => format!("S{}:T", k),
         Op::Malloc => "M".into(),
+        Op::Bulk(k) => format!("B{}", k),
+        Op::Hot => "H".into(),
+        Op::Clear => "C".into(),
+        Op::Check => "V".into(),
     }
 }
 fn op_parse(s: &str) -> Option<Op> {
     let s = s.trim();
     if s == "A" { return Some(Op::Alloc); }
     if s == "M" { return Some(Op::Malloc); }
+    if s == "H" { return Some(Op::Hot); }
+    if s == "C" { return Some(Op::Clear); }
+    if s == "V" { return Some(Op::Check); }
+    if let Some(r) = s.strip_prefix('B') { return r.parse().ok().map(|k: usize| Op::Bulk(k.clamp(1, 16))); }
     if let Some(r) = s.strip_prefix('F') { return r.parse().ok().map(Op::Free); }
     if let Some(r) = s.strip_prefix('S') {
         let mut it = r.split(':');
@@ -85,7 +107,7 @@ fn cm_coq(c: &Cm) -> String {
 // baton scheduler
 // ------------------------------------------------------------------------------------------
 #[derive(Clone, Debug)]
-enum OpResult { Block(u64), Failed(String), Done, Panicked(String) }
+enum OpResult { Block(u64), Blocks(Vec<u64>), Failed(String), Done, Refused, Complaint(String), Panicked(String) }
 
 struct BState {
     active: i64, // -1: controller; t: worker t
@@ -150,7 +172,20 @@ trait Cell: Send + Sync + 'static {
     fn alloc(&self) -> Result<(Self::H, u64), String>;
     /// allocation on behalf of worker `tid` (pools whose request size depends on the thread)
     fn alloc_t(&self, _tid: usize) -> Result<(Self::H, u64), String> { self.alloc() }
-    fn free(&self, h: Self::H);
+    /// the hinted allocation entry point, where the pool has one
+    fn alloc_hot(&self, tid: usize) -> Result<(Self::H, u64), String> { self.alloc_t(tid) }
+    /// k blocks through the bulk entry point (cells without one are never asked)
+    fn bulk(&self, _tid: usize, _k: usize) -> Result<Vec<(Self::H, u64)>, String> { Err("this pool has no bulk entry point".into()) }
+    /// give the block back; `Some(h)`: the pool refused (reported an error) and the caller still owns the block
+    fn free(&self, h: Self::H) -> Option<Self::H>;
+    /// the pool's clear()
+    fn clear(&self) -> Result<(), String> { Ok(()) }
+    /// clear() takes a blocking lock: true if a thread parked at one of these sites holds it
+    fn clear_would_block(&self, _parked: &[Option<u32>]) -> bool { false }
+    /// observers, on the worker thread, over the pool and the blocks the thread holds; complaints
+    fn check(&self, _held: &mut [Self::H]) -> Vec<String> { vec![] }
+    /// schedule points at which this cell does not park (the thread runs through)
+    fn skip_site(&self, _site: u32) -> bool { false }
     /// the owner writes into its block; `v` is a link-like value
     fn scribble(&self, h: &mut Self::H, v: u64);
     fn forget(&self, h: Self::H) { std::mem::forget(h); }
@@ -166,7 +201,12 @@ const WHOLE_OP: usize = 1000;
 
 fn worker<C: Cell>(cell: Arc<C>, baton: Arc<Baton>, tid: usize) {
     let b2 = baton.clone();
+    let cskip = cell.clone();
     vs::install(Box::new(move |kind, site, val| {
+        if kind != vs::KIND_NOTE && cskip.skip_site(site) { return; }
+        // a run that is being aborted unwinds the workers out of the pool; destructors that run during that unwinding
+        // (guards collected by a bulk request) come back here: they must neither park nor panic a second time
+        if kind != vs::KIND_NOTE && std::thread::panicking() { return; }
         if kind == vs::KIND_NOTE {
             let mut g = b2.m.lock().unwrap_or_else(|e| e.into_inner());
             g.log.push((tid, site, val));
@@ -204,12 +244,49 @@ fn worker<C: Cell>(cell: Arc<C>, baton: Arc<Baton>, tid: usize) {
                     Err(p) => OpResult::Panicked(p),
                 }
             }
+            Some((Op::Hot, _)) => {
+                let c = cell.clone();
+                match guarded(move || c.alloc_hot(tid)) {
+                    Ok(Ok((h, id))) => { held.push(h); OpResult::Block(id) }
+                    Ok(Err(e)) => OpResult::Failed(e),
+                    Err(p) => OpResult::Panicked(p),
+                }
+            }
+            Some((Op::Bulk(k), _)) => {
+                let c = cell.clone();
+                match guarded(move || c.bulk(tid, k)) {
+                    Ok(Ok(v)) => { let mut ids = vec![]; for (h, id) in v { held.push(h); ids.push(id); } OpResult::Blocks(ids) }
+                    Ok(Err(e)) => OpResult::Failed(e),
+                    Err(p) => OpResult::Panicked(p),
+                }
+            }
             Some((Op::Free(_), k)) => {
                 if k < held.len() {
                     let h = held.remove(k);
                     let c = cell.clone();
-                    match guarded(move || c.free(h)) { Ok(()) => OpResult::Done, Err(p) => OpResult::Panicked(p) }
+                    match guarded(move || c.free(h)) {
+                        Ok(None) => OpResult::Done,
+                        Ok(Some(h)) => { held.insert(k, h); OpResult::Refused }
+                        Err(p) => OpResult::Panicked(p),
+                    }
                 } else { OpResult::Done }
+            }
+            Some((Op::Clear, _)) => {
+                let c = cell.clone();
+                match guarded(move || c.clear()) {
+                    Ok(Ok(())) => OpResult::Done,
+                    Ok(Err(e)) => OpResult::Complaint(format!("clear() reported an error: {}", e)),
+                    Err(p) => OpResult::Panicked(p),
+                }
+            }
+            Some((Op::Check, _)) => {
+                let c = cell.clone();
+                let hs = &mut held[..];
+                match guarded(move || c.check(hs)) {
+                    Ok(v) if v.is_empty() => OpResult::Done,
+                    Ok(v) => OpResult::Complaint(v.join("; ")),
+                    Err(p) => OpResult::Panicked(p),
+                }
             }
             Some((Op::Scribble(_, _), _)) => OpResult::Done,
             Some((Op::Malloc, _)) => { let mut v: Vec<u8> = Vec::with_capacity(junk_size); v.push(0xA5); junk.push(v); OpResult::Done }
@@ -243,7 +320,7 @@ fn worker<C: Cell>(cell: Arc<C>, baton: Arc<Baton>, tid: usize) {
         if aborted {
             for h in held.drain(..) { cell.forget(h); }
         } else {
-            for h in held.drain(..) { let c = cell.clone(); let _ = guarded(move || c.free(h)); }
+            for h in held.drain(..) { let c = cell.clone(); let _ = guarded(move || { if let Some(h) = c.free(h) { c.forget(h); } }); }
         }
     }
     drop(junk);
@@ -253,6 +330,10 @@ fn worker<C: Cell>(cell: Arc<C>, baton: Arc<Baton>, tid: usize) {
 trait Watch {
     fn pre_turn(&mut self, _tid: usize, _site: Option<u32>) -> Option<(String, String)> { None }
     fn on_note(&mut self, _tid: usize, _site: u32, _val: u64) -> Option<(String, String)> { None }
+    /// thread `tid` starts operation `op` (a free names the block it gives back)
+    fn on_op_start(&mut self, _tid: usize, _op: &Op, _freed: Option<u64>) {}
+    /// thread `tid` is between operations again; `got`: the blocks the operation handed to it
+    fn on_op_end(&mut self, _tid: usize, _got: &[u64]) {}
 }
 struct NoWatch;
 impl Watch for NoWatch {}
@@ -276,6 +357,16 @@ struct RunOut {
     allocs_ok: u64,
     frees: u64,
     alloc_calls: u64,
+    /// allocations through the hinted entry point
+    hot_calls: u64,
+    /// an operation the Coq models do not know was executed (bulk allocation, clear, a refused free)
+    unmodelled: bool,
+    /// a bulk allocation failed part-way: at most this many blocks were taken and given back inside the pool
+    bulk_slack: u64,
+    /// frees the pool refused (the block stayed with its owner)
+    refused: u64,
+    clears: u64,
+    clears_skipped: u64,
 }
 
 /// Values a scribble may write: TAIL or the offset of a block slot, always inside the arena.
@@ -301,8 +392,9 @@ fn controlled_run<C: Cell>(
     }
     let mut out = RunOut {
         eff: vec![], notes: vec![], held: vec![vec![]; n], ever: BTreeSet::new(), order: vec![], eff_notes: vec![], eff_site: vec![], eff_result: vec![], fails: vec![], exit_info: vec![vec![]; n],
-        aborted: false, allocs_ok: 0, frees: 0, alloc_calls: 0,
+        aborted: false, allocs_ok: 0, frees: 0, alloc_calls: 0, hot_calls: 0, unmodelled: false, bulk_slack: 0, refused: 0, clears: 0, clears_skipped: 0,
     };
+    let mut pending_free: Vec<Option<(u64, usize)>> = vec![None; n];
     let mut owner: HashMap<u64, usize> = HashMap::new();
     let mut pcs = vec![0usize; n]; // next op of each program
     let mut cur: Vec<Option<Op>> = vec![None; n];
@@ -325,8 +417,17 @@ fn controlled_run<C: Cell>(
             let op = progs[t][pcs[t]].clone();
             pcs[t] += 1;
             let mut kidx = 0usize;
+            let mut op = op;
+            let mut freed = None;
             match &op {
                 Op::Alloc => { cm = Cm::Pop; out.alloc_calls += 1; }
+                Op::Hot => { cm = Cm::Pop; out.alloc_calls += 1; out.hot_calls += 1; }
+                Op::Bulk(k) => { out.alloc_calls += *k as u64; out.unmodelled = true; }
+                Op::Clear => {
+                    let parked: Vec<Option<u32>> = { let g = baton.m.lock().unwrap(); (0..n).filter(|&u| u != t && g.mid[u]).map(|u| g.parked_site[u]).collect() };
+                    if cell.clear_would_block(&parked) { out.clears_skipped += 1; op = Op::Malloc; } else { out.clears += 1; out.unmodelled = true; }
+                }
+                Op::Check => {}
                 Op::Free(k) => {
                     if !out.held[t].is_empty() {
                         kidx = k % out.held[t].len();
@@ -334,6 +435,8 @@ fn controlled_run<C: Cell>(
                         owner.remove(&b);
                         out.frees += 1;
                         cm = Cm::Push(b);
+                        freed = Some(b);
+                        pending_free[t] = Some((b, kidx));
                     } else { kidx = usize::MAX; }
                 }
                 Op::Scribble(k, j) => {
@@ -348,6 +451,7 @@ fn controlled_run<C: Cell>(
                 }
                 Op::Malloc => {}
             }
+            watch.on_op_start(t, &op, freed);
             cur[t] = Some(op.clone());
             let mut g = baton.m.lock().unwrap();
             g.cmd[t] = match op { Op::Scribble(..) => None, o => Some((o, kidx)) };
@@ -378,24 +482,44 @@ fn controlled_run<C: Cell>(
             }
         }
         if !mid_now {
+            let mut got: Vec<u64> = vec![];
+            let pf = pending_free[t].take();
             match (cur[t].take(), res) {
-                (Some(Op::Alloc), Some(OpResult::Block(b))) => {
-                    out.allocs_ok += 1;
-                    if let Some(&o) = owner.get(&b) {
-                        out.fails.push((None, format!("block {} handed to thread {} while thread {} owns it", b, t, o)));
-                    }
-                    owner.insert(b, t);
+                (Some(Op::Alloc), Some(OpResult::Block(b))) | (Some(Op::Hot), Some(OpResult::Block(b))) => {
                     if let Some(r) = out.eff_result.last_mut() { *r = Some(b); }
-                    if out.ever.insert(b) { out.order.push(b); }
-                    out.held[t].push(b);
+                    got.push(b);
                 }
-                (Some(Op::Alloc), Some(OpResult::Failed(_))) => {}
+                (Some(Op::Bulk(_)), Some(OpResult::Blocks(v))) => { got = v; }
+                (Some(Op::Bulk(k)), Some(OpResult::Failed(_))) => { out.bulk_slack += k.saturating_sub(1) as u64; }
+                (Some(Op::Alloc), Some(OpResult::Failed(_))) | (Some(Op::Hot), Some(OpResult::Failed(_))) => {}
+                (Some(Op::Free(_)), Some(OpResult::Refused)) => {
+                    // the pool reported an error: the block was not taken, its owner keeps it
+                    if let Some((b, kidx)) = pf {
+                        let at = kidx.min(out.held[t].len());
+                        out.held[t].insert(at, b);
+                        owner.insert(b, t);
+                        out.frees -= 1;
+                        out.refused += 1;
+                        out.unmodelled = true;
+                    }
+                }
+                (_, Some(OpResult::Complaint(d))) => { out.fails.push((None, format!("thread {}: {}", t, d))); }
                 (_, Some(OpResult::Panicked(p))) => {
                     if p != ABORT_MSG { out.fails.push((None, format!("thread {} panicked inside the pool: {}", t, p))); }
                     out.aborted = true;
                 }
                 _ => {}
             }
+            for &b in &got {
+                out.allocs_ok += 1;
+                if let Some(&o) = owner.get(&b) {
+                    out.fails.push((None, format!("block {} handed to thread {} while thread {} owns it", b, t, o)));
+                }
+                owner.insert(b, t);
+                if out.ever.insert(b) { out.order.push(b); }
+                out.held[t].push(b);
+            }
+            watch.on_op_end(t, &got);
         }
         true
     };
@@ -466,34 +590,99 @@ fn controlled_run<C: Cell>(
 // ------------------------------------------------------------------------------------------
 // cells
 // ------------------------------------------------------------------------------------------
-struct LfCell { pool: LockFreeMemoryPool, size: usize, base: usize, zero: bool }
+/// How the blocks of the LockFreeMemoryPool cell are held and given back.
+#[derive(Clone, Copy, PartialEq, Debug)]
+enum LfMode { Plain, Zero, Raii }
+enum LfH { Raw(NonNull<u8>, usize), Guard(LockFreeAllocation) }
+struct LfCell { pool: Arc<LockFreeMemoryPool>, sizes: Vec<usize>, base: usize, mode: LfMode }
+impl LfCell {
+    fn size_of(&self, tid: usize) -> usize { self.sizes[tid % self.sizes.len()] }
+    fn wrap(&self, p: NonNull<u8>, size: usize) -> (LfH, u64) {
+        let off = (p.as_ptr() as usize - self.base) as u64;
+        match self.mode {
+            LfMode::Raii => (LfH::Guard(LockFreeAllocation::new(p, size, self.pool.clone())), off),
+            _ => (LfH::Raw(p, size), off),
+        }
+    }
+}
 impl Cell for LfCell {
-    type H = (NonNull<u8>, u64);
-    fn alloc(&self) -> Result<(Self::H, u64), String> {
-        match self.pool.allocate(self.size) {
-            Ok(p) => { let off = (p.as_ptr() as usize - self.base) as u64; Ok(((p, off), off)) }
+    type H = LfH;
+    fn alloc(&self) -> Result<(Self::H, u64), String> { self.alloc_t(0) }
+    fn alloc_t(&self, tid: usize) -> Result<(Self::H, u64), String> {
+        let size = self.size_of(tid);
+        match self.pool.allocate(size) { Ok(p) => Ok(self.wrap(p, size)), Err(e) => Err(e.to_string()) }
+    }
+    fn bulk(&self, tid: usize, k: usize) -> Result<Vec<(Self::H, u64)>, String> {
+        let size = self.size_of(tid);
+        match self.pool.allocate_bulk_simd(&vec![size; k]) {
+            Ok(v) => Ok(v.into_iter().map(|p| self.wrap(p, size)).collect()),
             Err(e) => Err(e.to_string()),
         }
     }
-    fn free(&self, h: Self::H) {
-        let _ = if self.zero { self.pool.deallocate_with_zero(h.0, self.size) } else { self.pool.deallocate(h.0, self.size) };
+    fn free(&self, h: Self::H) -> Option<Self::H> {
+        match h {
+            LfH::Raw(p, size) => {
+                let r = if self.mode == LfMode::Zero { self.pool.deallocate_with_zero(p, size) } else { self.pool.deallocate(p, size) };
+                if r.is_err() { Some(LfH::Raw(p, size)) } else { None }
+            }
+            LfH::Guard(g) => { drop(g); None }
+        }
     }
-    fn scribble(&self, h: &mut Self::H, v: u64) { unsafe { *(h.0.as_ptr() as *mut u32) = v as u32; } }
+    fn forget(&self, h: Self::H) { std::mem::forget(h); }
+    fn scribble(&self, _h: &mut Self::H, _v: u64) {}
+    fn check(&self, held: &mut [Self::H]) -> Vec<String> {
+        let mut f = vec![];
+        for h in held.iter_mut() {
+            if let LfH::Guard(g) = h {
+                let (p, n) = (g.as_ptr() as usize, g.size());
+                if g.as_slice().len() != n || g.as_slice().as_ptr() as usize != p || g.as_mut_slice().len() != n {
+                    f.push(format!("LockFreeAllocation: as_slice / as_mut_slice do not cover as_ptr() .. size() = {}", n));
+                }
+                if p < self.base { f.push("LockFreeAllocation::as_ptr() lies before the pool memory".into()); }
+            }
+        }
+        if let Some(st) = self.pool.stats() {
+            let (fa, sa) = (st.fast_allocs.load(Ordering::SeqCst), st.skip_allocs.load(Ordering::SeqCst));
+            let (cf, cs) = (st.cas_failures.load(Ordering::SeqCst), st.cas_successes.load(Ordering::SeqCst));
+            let rate = st.allocation_rate();
+            if rate != (fa + sa) as f64 { f.push(format!("allocation_rate() = {} with fast_allocs {} and skip_allocs {}", rate, fa, sa)); }
+            let ratio = st.contention_ratio();
+            let want = if cf + cs == 0 { 0.0 } else { cf as f64 / (cf + cs) as f64 };
+            if !(ratio >= 0.0 && ratio <= 1.0) || (ratio - want).abs() > 1e-9 { f.push(format!("contention_ratio() = {} with {} failed and {} successful exchanges", ratio, cf, cs)); }
+        }
+        f
+    }
 }
 unsafe impl Send for LfCell {}
 unsafe impl Sync for LfCell {}
 
-struct FlCell { pool: LockFreePool, size: usize }
+struct FlCell { pool: Arc<LockFreePool>, handle: Option<FiveLevelPoolHandle>, size: usize }
 impl Cell for FlCell {
     type H = MemOffset;
     fn alloc(&self) -> Result<(Self::H, u64), String> {
-        self.pool.alloc(self.size).map(|o| (o, o.verif_raw() as u64)).map_err(|e| e.to_string())
+        let r = match &self.handle { Some(h) => h.alloc(self.size), None => self.pool.alloc(self.size) };
+        r.map(|o| (o, o.verif_raw() as u64)).map_err(|e| e.to_string())
     }
-    fn free(&self, h: Self::H) { let _ = self.pool.free(h, self.size); }
+    fn free(&self, h: Self::H) -> Option<Self::H> {
+        let r = match &self.handle { Some(hd) => hd.free(h, self.size), None => self.pool.free(h, self.size) };
+        if r.is_err() { Some(h) } else { None }
+    }
     fn scribble(&self, h: &mut Self::H, v: u64) { self.pool.verif_write_word(h.verif_raw(), v as u32); }
+    fn check(&self, _held: &mut [Self::H]) -> Vec<String> {
+        let mut f = vec![];
+        let st = match &self.handle { Some(h) => h.stats(), None => self.pool.stats() };
+        let (u, fr) = (st.utilization(), st.fragmentation_ratio());
+        let wu = if st.total_capacity == 0 { 0.0 } else { st.used_memory as f64 / st.total_capacity as f64 };
+        let wf = if st.used_memory == 0 { 0.0 } else { st.fragment_size as f64 / st.used_memory as f64 };
+        if (u - wu).abs() > 1e-9 || (fr - wf).abs() > 1e-9 { f.push(format!("PoolStats::utilization() = {} / fragmentation_ratio() = {} for used {} capacity {} fragment {}", u, fr, st.used_memory, st.total_capacity, st.fragment_size)); }
+        if st.used_memory > st.total_capacity { f.push(format!("used_memory {} exceeds total_capacity {}", st.used_memory, st.total_capacity)); }
+        f
+    }
 }
+unsafe impl Send for FlCell {}
+unsafe impl Sync for FlCell {}
 
-struct FcCell { pool: FixedCapacityMemoryPool, sizes: Vec<usize> }
+struct FcCell { pool: FixedCapacityMemoryPool, sizes: Vec<usize>, maxb: usize, total: usize, park_util: bool }
 impl FcCell {
     fn size_of(&self, tid: usize) -> usize { self.sizes[tid % self.sizes.len()] }
 }
@@ -506,24 +695,88 @@ impl Cell for FcCell {
             Err(e) => Err(e.to_string()),
         }
     }
-    fn free(&self, h: Self::H) { drop(h); }
+    fn free(&self, h: Self::H) -> Option<Self::H> { drop(h); None }
     fn scribble(&self, h: &mut Self::H, v: u64) {
         let s = h.as_mut_slice();
         let w = (v as u32).to_le_bytes();
         for (i, b) in s.iter_mut().enumerate().take(16) { *b = w[i % 4]; }
     }
+    fn check(&self, held: &mut [Self::H]) -> Vec<String> {
+        let mut f = vec![];
+        for a in held.iter_mut() {
+            let n = a.size();
+            if n == 0 || n > self.maxb || a.as_slice().len() != n || a.as_mut_slice().len() != n || a.as_slice().as_ptr() as usize != a.as_ptr() as usize {
+                f.push(format!("FixedCapacityAllocation: size() = {} / slices do not match (max_block_size {})", n, self.maxb));
+            }
+            let off = a.as_ptr() as usize - self.pool.verif_base();
+            if off % self.maxb != 0 || off / self.maxb >= self.total { f.push(format!("allocation at offset {} is not a block of the pool", off)); }
+        }
+        if self.pool.total_capacity() != self.total * self.maxb { f.push(format!("total_capacity() = {} for {} blocks of {}", self.pool.total_capacity(), self.total, self.maxb)); }
+        if self.pool.available_capacity() > self.pool.total_capacity() { f.push(format!("available_capacity() = {} exceeds total_capacity()", self.pool.available_capacity())); }
+        if self.pool.has_capacity(self.maxb + 1) { f.push("has_capacity(max_block_size + 1) is true".into()); }
+        if let Some(st) = self.pool.stats() {
+            let sr = st.success_rate();
+            let (a, fl) = (st.allocations.load(Ordering::SeqCst), st.allocation_failures.load(Ordering::SeqCst));
+            let want = if a + fl == 0 { 1.0 } else { a as f64 / (a + fl) as f64 };
+            if (sr - want).abs() > 1e-9 { f.push(format!("success_rate() = {} with {} allocations and {} failures", sr, a, fl)); }
+            // (in mid-history the gauge may pass 100 %: see peak_blocks in the inspector)
+            let up = st.utilization_percent();
+            if !(up >= 0.0) || (up * 100.0 - st.utilization.load(Ordering::SeqCst) as f64).abs() > 1.0 { f.push(format!("utilization_percent() = {}", up)); }
+        }
+        f
+    }
+    // the two points in front of the utilization gauge are visited only by the cases that ask for them, so that
+    // the step structure the schedules (and the Coq model) were written for stays what it was
+    fn skip_site(&self, site: u32) -> bool { !self.park_util && (site == FC_UTIL_SITE_A || site == FC_UTIL_SITE_F || site == FC_UTIL_SITE_S) }
 }
 unsafe impl Send for FcCell {}
 unsafe impl Sync for FcCell {}
+/// fixed_capacity_pool.rs: schedule points between the update of active_blocks and the store of the derived
+/// utilization gauge, in allocate / deallocate (hook FC_ALLOC_UTIL / FC_FREE_UTIL)
+const FC_UTIL_SITE_A: u32 = 56;
+const FC_UTIL_SITE_F: u32 = 66;
+/// ... and between the load of active_blocks and the store of the gauge (hook FC_UTIL_STORE)
+const FC_UTIL_SITE_S: u32 = 57;
 
-struct SpCell { pool: Arc<SecureMemoryPool> }
+struct SpCell { pool: Arc<SecureMemoryPool>, chunk: usize }
 impl Cell for SpCell {
     type H = SecurePooledPtr;
     fn alloc(&self) -> Result<(Self::H, u64), String> {
         match self.pool.allocate() { Ok(p) => { let id = p.as_ptr() as usize as u64; Ok((p, id)) } Err(e) => Err(e.to_string()) }
     }
-    fn free(&self, h: Self::H) { drop(h); }
+    fn alloc_hot(&self, _tid: usize) -> Result<(Self::H, u64), String> {
+        match self.pool.allocate_with_hint(true) { Ok(p) => { let id = p.as_ptr() as usize as u64; Ok((p, id)) } Err(e) => Err(e.to_string()) }
+    }
+    fn bulk(&self, _tid: usize, k: usize) -> Result<Vec<(Self::H, u64)>, String> {
+        match self.pool.allocate_bulk_with_prefetch(&vec![self.chunk; k]) {
+            Ok(v) => Ok(v.into_iter().map(|p| { let id = p.as_ptr() as usize as u64; (p, id) }).collect()),
+            Err(e) => Err(e.to_string()),
+        }
+    }
+    fn free(&self, h: Self::H) -> Option<Self::H> { drop(h); None }
+    fn clear(&self) -> Result<(), String> { self.pool.clear().map_err(|e| e.to_string()) }
     fn scribble(&self, h: &mut Self::H, v: u64) { for b in h.as_mut_slice().iter_mut() { *b = v as u8; } }
+    fn check(&self, held: &mut [Self::H]) -> Vec<String> {
+        let mut f = vec![];
+        if let Err(e) = self.pool.validate() { f.push(format!("SecureMemoryPool::validate() fails while every live chunk is intact: {}", e)); }
+        if self.pool.config().chunk_size != self.chunk { f.push("config().chunk_size changed".into()); }
+        let mut gens = BTreeSet::new();
+        for p in held.iter_mut() {
+            if let Err(e) = p.validate() { f.push(format!("SecurePooledPtr::validate() fails on a chunk its thread owns: {}", e)); }
+            if p.size() != self.chunk || p.as_slice().len() != self.chunk { f.push(format!("SecurePooledPtr::size() = {} / slice {} for chunk_size {}", p.size(), p.as_slice().len(), self.chunk)); }
+            if p.as_non_null().map(|q| q.as_ptr() as usize) != Some(p.as_ptr() as usize) { f.push("as_non_null() differs from as_ptr()".into()); }
+            if p.generation() == 0 || !gens.insert(p.generation()) { f.push(format!("two live chunks of one thread carry generation {}", p.generation())); }
+            let s = p.as_slice();
+            let head = &s[..s.len().min(256)];
+            match self.pool.verify_zeroed_simd(head) {
+                Ok(z) => if z != head.iter().all(|&b| b == 0) { f.push("verify_zeroed_simd disagrees with a byte-wise scan".into()); },
+                Err(e) => f.push(format!("verify_zeroed_simd: {}", e)),
+            }
+        }
+        let st = self.pool.stats();
+        if st.pool_hits + st.pool_misses > st.alloc_count { f.push(format!("pool_hits {} + pool_misses {} exceed alloc_count {}", st.pool_hits, st.pool_misses, st.alloc_count)); }
+        f
+    }
     fn exit_info(&self) -> Vec<u64> { self.pool.verif_local_cache_chunks().into_iter().map(|x| x as u64).collect() }
     // same malloc size class as a node of the shared stack, so that the allocator may reuse a popped node's address
     fn junk_size(&self) -> usize { self.pool.verif_stack_node_size() }
@@ -554,12 +807,15 @@ struct Ctx {
     out: String,
     child_seq: usize,
     thorough: bool,
+    /// the breadth families draw on budgets of their own
+    wide: bool,
 }
 
 impl Ctx {
     /// Coq cases are budgeted per cell so that every modelled cell is represented (quick: about 1500 in all).
     fn room(&mut self, cell: &'static str, force: bool) -> bool {
-        let base = match cell { "LF" | "FL" => 300, "FC" => 280, "SP" => 280, "MP" => 200, "LZ" => 120, _ => 100 };
+        let cell: &'static str = if self.wide { match cell { "LF" => "LFw", "FL" => "FLw", "FC" => "FCw", "SP" => "SPw", "MP" => "MPw", "LZ" => "LZw", c => c } } else { cell };
+        let base = match cell { "LF" | "FL" => 260, "FC" => 250, "SP" => 250, "MP" => 180, "LZ" => 110, "LFw" | "FLw" | "FCw" | "SPw" => 50, "MPw" => 30, "LZw" => 10, _ => 100 };
         let budget = if self.thorough { base * 4 } else { base };
         let used = self.coq_used.entry(cell).or_insert(0);
         if !force && *used >= budget { return false; }
@@ -629,23 +885,74 @@ fn lf_slot_size(size: usize) -> usize {
     LF_BIN_SIZES.iter().cloned().find(|&b| a <= b).unwrap_or(a)
 }
 
-/// LockFreeMemoryPool under a controlled schedule.  `zero`: the pool is configured with zero_on_free and SIMD
-/// optimisation and every free goes through deallocate_with_zero (the block is scrubbed, then pushed).
+/// Copy the variant fields of a case (presets, options, per-thread sizes ...) into its JSON.
+fn merge_variant(cj: &mut Value, v: &Value) {
+    if let Some(o) = v.as_object() {
+        for (k, x) in o {
+            if matches!(k.as_str(), "cell" | "size" | "slots" | "sched" | "threads") || k.starts_with("prog") || k.starts_with("impl_") { continue; }
+            if x.is_null() || *x == json!(false) { continue; }
+            cj[k.as_str()] = x.clone();
+        }
+    }
+}
+/// `"storm": [n, k]`: the schedule is n rounds of (three steps of thread 0, k whole operations of thread 1) after
+/// `"pre"` whole operations of thread 0 - a thread stalled in a compare-exchange loop that loses every round.
+fn expand_sched(v: &Value, sched: &[usize]) -> Vec<usize> {
+    let st: Vec<u64> = v["storm"].as_array().map(|a| a.iter().filter_map(|x| x.as_u64()).collect()).unwrap_or_default();
+    if st.len() < 2 { return sched.to_vec(); }
+    let mut s = sched.to_vec();
+    for _ in 0..st[0].min(200) {
+        s.extend([0usize, 0, 0]);
+        for _ in 0..st[1].min(4) { s.push(WHOLE_OP + 1); }
+    }
+    s
+}
+
 fn run_lf(cx: &mut Ctx, size: usize, slots: usize, zero: bool, progs: &[Vec<Op>], sched: &[usize], force: bool) {
+    run_lf_v(cx, size, slots, &json!({"zero": zero}), progs, sched, force)
+}
+
+/// LockFreeMemoryPool under a controlled schedule.  Variant fields: `zero` (the pool is configured with zero_on_free
+/// and SIMD optimisation and every free goes through deallocate_with_zero: the block is scrubbed, then pushed),
+/// `raii` (blocks are held as LockFreeAllocation guards and given back by their Drop), `sizes` (request size per
+/// thread, all of one size class), `preset` (1 compact(), 2 high_performance() - no statistics -, 3 default(); the
+/// arena size is set to the case's slot count), `retries` (max_cas_retries), `backoff` (1 linear, 2 exponential),
+/// `storm` (see expand_sched).  Sizes above 8192 take the large-block path: never reused, only counted.
+fn run_lf_v(cx: &mut Ctx, size: usize, slots: usize, v: &Value, progs: &[Vec<Op>], sched: &[usize], force: bool) {
     let cellname = "LockFreeMemoryPool/controlled";
-    let bs = lf_slot_size(size);
+    let big = ((size + 7) & !7) > 8192;
+    let bs = if big { (size + 7) & !7 } else { lf_slot_size(size) };
     let cap = 8 + bs * slots;
-    let mut cj = case_json("LF", size, slots, progs, sched);
-    if zero { cj["zero"] = json!(true); }
+    let mode = if v["zero"].as_bool().unwrap_or(false) { LfMode::Zero } else if v["raii"].as_bool().unwrap_or(false) { LfMode::Raii } else { LfMode::Plain };
+    let zero = mode == LfMode::Zero;
+    let mut sizes: Vec<usize> = v["sizes"].as_array().map(|a| a.iter().filter_map(|x| x.as_u64().map(|y| y as usize)).collect()).unwrap_or_default();
+    sizes.retain(|&x| x >= 1 && !big && !zero && lf_slot_size(x) == bs);
+    if sizes.is_empty() { sizes = vec![size]; }
+    let preset = v["preset"].as_u64().unwrap_or(0);
+    let retries = v["retries"].as_u64().map(|r| r.clamp(1, 100_000) as u32);
+    let sched = expand_sched(v, sched);
+    let sched = &sched[..];
+    let mut cj = case_json("LF", size, slots, progs, if v["storm"].is_array() { &[] } else { sched });
+    merge_variant(&mut cj, v);
     cx.sum.eval(cellname, &cj.to_string(), progs.iter().filter(|p| !p.is_empty()).count() >= 2);
-    let cfg = LockFreePoolConfig {
-        memory_size: cap, enable_stats: true, max_cas_retries: 1000, backoff_strategy: BackoffStrategy::None,
-        enable_cache_alignment: false, cache_config: None, enable_numa_awareness: false, enable_huge_pages: false,
-        huge_page_threshold: 1 << 30, enable_simd_optimization: zero, zero_on_free: zero,
+    let mut cfg = match preset {
+        1 => LockFreePoolConfig::compact(),
+        2 => LockFreePoolConfig::high_performance(),
+        3 => LockFreePoolConfig::default(),
+        _ => LockFreePoolConfig {
+            memory_size: cap, enable_stats: true, max_cas_retries: 1000, backoff_strategy: BackoffStrategy::None,
+            enable_cache_alignment: false, cache_config: None, enable_numa_awareness: false, enable_huge_pages: false,
+            huge_page_threshold: 1 << 30, enable_simd_optimization: zero, zero_on_free: zero,
+        },
     };
-    let pool = match LockFreeMemoryPool::new(cfg) { Ok(p) => p, Err(e) => { cx.sum.fail(cellname, None, cj, &format!("pool creation failed: {}", e)); return; } };
+    cfg.memory_size = cap;
+    if zero { cfg.enable_simd_optimization = true; cfg.zero_on_free = true; }
+    if let Some(r) = retries { cfg.max_cas_retries = r; }
+    match v["backoff"].as_u64() { Some(1) => cfg.backoff_strategy = BackoffStrategy::Linear, Some(2) => cfg.backoff_strategy = BackoffStrategy::Exponential { max_delay_us: 50 }, _ => {} }
+    if preset != 0 { cx.sum.dist("lockfree_preset_runs"); }
+    let pool = match LockFreeMemoryPool::new(cfg) { Ok(p) => Arc::new(p), Err(e) => { cx.sum.fail(cellname, None, cj, &format!("pool creation failed: {}", e)); return; } };
     let base = pool.verif_layout().0;
-    let cell = Arc::new(LfCell { pool, size, base, zero });
+    let cell = Arc::new(LfCell { pool, sizes: sizes.clone(), base, mode });
     let smap = ScribbleMap { tail: 0, base: 8, bsize: bs as u64, slots: slots as u64 };
     let c2 = cell.clone();
     let c3 = cell.clone();
@@ -654,15 +961,32 @@ fn run_lf(cx: &mut Ctx, size: usize, slots: usize, zero: bool, progs: &[Vec<Op>]
     let mut stats: Vec<u64> = vec![];
     let mut inspect = |o: &RunOut| -> Vec<(Option<String>, String)> {
         let mut f = vec![];
-        let (packed, count) = c2.pool.verif_bin_state(size).unwrap_or((0, 0));
+        let (packed, count) = c2.pool.verif_bin_state(size.min(8192)).unwrap_or((0, 0));
         let (_, bump) = c2.pool.verif_layout();
         fin = [packed, count as u64, bump as u64];
         let owned: BTreeSet<u64> = o.held.iter().flatten().cloned().collect();
+        // every block the bump pointer has passed: the pool has one size class in play, so they are bs apart
+        let carved: BTreeSet<u64> = (0..).map(|i| 8 + i * bs as u64).take_while(|&x| x + bs as u64 <= bump as u64).collect();
+        if (bump as u64) < 8 || (bump as u64 - 8) % bs as u64 != 0 || bump as usize > cap { f.push((None, format!("bump offset {} is not 8 + a number of {}-byte blocks inside the {}-byte arena", bump, bs, cap))); }
+        for b in &o.ever { if !carved.contains(b) { f.push((None, format!("block {} was handed out but does not lie on the {}-byte grid below the bump offset {}", b, bs, bump))); } }
+        if carved.len() as u64 > o.ever.len() as u64 + o.bulk_slack { f.push((None, format!("{} blocks were carved from the arena but only {} were ever handed to a thread", carved.len(), o.ever.len()))); }
+        let rolled = carved.len() as u64 - (o.ever.len() as u64).min(carved.len() as u64);
+        if big {
+            // large blocks are never put on a list: nothing but distinct, disjoint blocks and the counters
+            if count != 0 || packed & 0xFFFF_FFFF != 0 { f.push((None, format!("the 8192-byte bin changed (head {}, count {}) although only large blocks were requested", packed & 0xFFFF_FFFF, count))); }
+            if let Some(st) = c2.pool.stats() {
+                let (sd, mu) = (st.skip_deallocs.load(Ordering::SeqCst), st.memory_usage.load(Ordering::SeqCst));
+                // (a bulk request that failed part-way gave back what it had taken: at most bulk_slack more)
+                if sd < o.frees || sd - o.frees > o.bulk_slack { f.push((None, format!("skip_deallocs = {} after {} frees of large blocks", sd, o.frees))); }
+                if mu != carved.len() as u64 * bs as u64 { f.push((None, format!("memory_usage = {} but {} blocks of {} bytes were carved", mu, carved.len(), bs))); }
+            }
+            return f;
+        }
         let link = |x: u64| c2.pool.verif_read_link(x as u32).map(|v| v as u64);
-        match walk_free(packed & 0xFFFF_FFFF, 0, &link, &o.ever, &owned, o.ever.len()) {
+        match walk_free(packed & 0xFFFF_FFFF, 0, &link, &carved, &owned, carved.len()) {
             Ok(l) => {
                 if l.len() as u64 != count as u64 { f.push((None, format!("bin.count = {} but the free list has {} blocks at quiescence", count, l.len()))); }
-                for b in &o.ever { if !owned.contains(b) && !l.contains(b) { f.push((None, format!("block {} is neither owned nor on the free list: lost", b))); } }
+                for b in &carved { if !owned.contains(b) && !l.contains(b) { f.push((None, format!("block {} is neither owned nor on the free list: lost", b))); } }
                 free = Some(l);
             }
             Err(e) => f.push((None, e)),
@@ -671,9 +995,12 @@ fn run_lf(cx: &mut Ctx, size: usize, slots: usize, zero: bool, progs: &[Vec<Op>]
             let fa = st.fast_allocs.load(Ordering::SeqCst);
             let fd = st.fast_deallocs.load(Ordering::SeqCst);
             stats = vec![fa, fd, st.cas_successes.load(Ordering::SeqCst), st.cas_failures.load(Ordering::SeqCst), st.memory_usage.load(Ordering::SeqCst)];
-            if fd != o.frees { f.push((None, format!("fast_deallocs = {} after {} frees", fd, o.frees))); }
-            let fresh = o.ever.len() as u64;
-            if fa + fresh != o.allocs_ok { f.push((None, format!("fast_allocs {} + new blocks {} != successful allocations {}", fa, fresh, o.allocs_ok))); }
+            // a bulk allocation that failed part-way gives the blocks it had taken back inside the pool: x of them
+            let x = fd.wrapping_sub(o.frees);
+            if x > o.bulk_slack { f.push((None, format!("fast_deallocs = {} after {} frees", fd, o.frees))); }
+            let fresh = carved.len() as u64;
+            if x <= o.bulk_slack && (fa + fresh != o.allocs_ok + x || rolled > x) { f.push((None, format!("fast_allocs {} + new blocks {} != successful allocations {}", fa, fresh, o.allocs_ok))); }
+            if stats[4] != fresh * bs as u64 { f.push((None, format!("memory_usage = {} but {} blocks of {} bytes were carved", stats[4], fresh, bs))); }
         }
         f
     };
@@ -681,24 +1008,65 @@ fn run_lf(cx: &mut Ctx, size: usize, slots: usize, zero: bool, progs: &[Vec<Op>]
     let out = controlled_run(cell.clone(), progs, sched, &smap, &mut NoWatch, &mut inspect, &scr);
     cx.sum.dist_max("max_steps_controlled", out.eff.len() as u64);
     if out.notes.iter().any(|&(_, s, v)| (s == vs::LF_POP_CAS || s == vs::LF_PUSH_CAS) && v == 0) { cx.sum.dist("runs_with_failed_cas"); }
+    if out.refused > 0 { cx.sum.dist("lockfree_runs_with_refused_free"); }
+    if out.bulk_slack > 0 { cx.sum.dist("runs_with_failed_bulk_allocation"); }
     for (cl, d) in &out.fails { cx.sum.fail(cellname, cl.as_deref(), cj.clone(), d); }
     if zero { cx.sum.dist("lockfree_zero_on_free_runs"); }
-    if !out.aborted && !stats.is_empty() { emit_coq(cx, 0, bs as u64, cap as u64, progs.len(), &out, fin, &free, &stats, if zero { Some(size as u64) } else { None }, &cj, force); }
+    if mode == LfMode::Raii { cx.sum.dist("lockfree_raii_runs"); }
+    if big { cx.sum.dist("lockfree_large_block_runs"); }
+    if !out.aborted && !stats.is_empty() && !out.unmodelled && !big && retries.is_none() {
+        emit_coq(cx, 0, bs as u64, cap as u64, progs.len(), &out, fin, &free, &stats, if zero { Some(size as u64) } else { None }, &cj, force);
+    }
 }
 
-/// five-level LockFreePool under a controlled schedule.
 fn run_fl(cx: &mut Ctx, size: usize, slots: usize, progs: &[Vec<Op>], sched: &[usize], force: bool) {
+    run_fl_v(cx, size, slots, &Value::Null, progs, sched, force)
+}
+
+/// five-level LockFreePool under a controlled schedule.  Variant fields: `preset` (1 performance_optimized(),
+/// 2 memory_optimized(), 3 realtime(), 4 default(), as they are), `align`, `maxfast` (max_fast_block_size: a request
+/// above it takes the huge-block path, which only counts), `handle` (the pool is built by
+/// AdaptiveFiveLevelPool::with_level and used through a cloned FiveLevelPoolHandle).
+fn run_fl_v(cx: &mut Ctx, size: usize, slots: usize, v: &Value, progs: &[Vec<Op>], sched: &[usize], force: bool) {
     let cellname = "five_level::LockFreePool/controlled";
-    let bs = (size + 7) & !7;
-    let cap = bs * slots;
-    let cj = case_json("FL", size, slots, progs, sched);
-    cx.sum.eval(cellname, &cj.to_string(), progs.iter().filter(|p| !p.is_empty()).count() >= 2);
-    let cfg = FiveLevelPoolConfig {
-        max_fast_block_size: 1024, alignment: 8, initial_capacity: cap, max_skip_levels: 4, arena_size: 4096, fixed_capacity: None,
-        enable_cache_alignment: false, cache_config: None, enable_numa_awareness: false, enable_huge_pages: false, huge_page_threshold: 1 << 30,
+    let preset = v["preset"].as_u64().unwrap_or(0);
+    let mut cfg = match preset {
+        1 => FiveLevelPoolConfig::performance_optimized(),
+        2 => FiveLevelPoolConfig::memory_optimized(),
+        3 => FiveLevelPoolConfig::realtime(),
+        4 => FiveLevelPoolConfig::default(),
+        _ => FiveLevelPoolConfig {
+            max_fast_block_size: 1024, alignment: 8, initial_capacity: 0, max_skip_levels: 4, arena_size: 4096, fixed_capacity: None,
+            enable_cache_alignment: false, cache_config: None, enable_numa_awareness: false, enable_huge_pages: false, huge_page_threshold: 1 << 30,
+        },
     };
-    let pool = match LockFreePool::new(cfg) { Ok(p) => p, Err(e) => { cx.sum.fail(cellname, None, cj, &format!("pool creation failed: {}", e)); return; } };
-    let cell = Arc::new(FlCell { pool, size });
+    if preset == 0 {
+        if let Some(a) = v["align"].as_u64() { if a.is_power_of_two() && (4..=4096).contains(&a) { cfg.alignment = a as usize; } }
+        if let Some(m) = v["maxfast"].as_u64() { cfg.max_fast_block_size = (m as usize).max(cfg.alignment); }
+    }
+    let al = cfg.alignment;
+    let bs = (size + al - 1) & !(al - 1);
+    if preset == 0 { cfg.initial_capacity = bs * slots; }
+    let cap = cfg.initial_capacity;
+    let huge = bs > cfg.max_fast_block_size;
+    let via_handle = v["handle"].as_bool().unwrap_or(false);
+    let mut cj = case_json("FL", size, slots, progs, sched);
+    merge_variant(&mut cj, v);
+    cx.sum.eval(cellname, &cj.to_string(), progs.iter().filter(|p| !p.is_empty()).count() >= 2);
+    if preset != 0 { cx.sum.dist("fivelevel_preset_runs"); }
+    let (pool, handle) = if via_handle {
+        let ad = match AdaptiveFiveLevelPool::with_level(cfg, ConcurrencyLevel::MultiThreadLockFree) { Ok(p) => p, Err(e) => { cx.sum.fail(cellname, None, cj, &format!("pool creation failed: {}", e)); return; } };
+        if ad.current_level() != ConcurrencyLevel::MultiThreadLockFree { cx.sum.fail(cellname, None, cj, "with_level(MultiThreadLockFree): current_level() reports another level"); return; }
+        match ad.get_handle() {
+            Ok(FiveLevelPoolHandle::Level3(p)) => { let h = FiveLevelPoolHandle::Level3(p.clone()); (p, Some(h.clone())) }
+            Ok(_) => { cx.sum.fail(cellname, None, cj, "get_handle() of a level-3 pool returned a handle of another level"); return; }
+            Err(e) => { cx.sum.fail(cellname, None, cj, &format!("get_handle() failed: {}", e)); return; }
+        }
+    } else {
+        match LockFreePool::new(cfg) { Ok(p) => (Arc::new(p), None), Err(e) => { cx.sum.fail(cellname, None, cj, &format!("pool creation failed: {}", e)); return; } }
+    };
+    if via_handle { cx.sum.dist("fivelevel_handle_runs"); }
+    let cell = Arc::new(FlCell { pool, handle, size });
     let smap = ScribbleMap { tail: u32::MAX as u64, base: 0, bsize: bs as u64, slots: slots as u64 };
     let c2 = cell.clone();
     let c3 = cell.clone();
@@ -709,16 +1077,27 @@ fn run_fl(cx: &mut Ctx, size: usize, slots: usize, progs: &[Vec<Op>], sched: &[u
         let mut f = vec![];
         let (packed, count) = c2.pool.verif_bin_state(size).unwrap_or((u32::MAX as u64, 0));
         let head = packed & 0xFFFF_FFFF;
-        let used = c2.pool.stats().used_memory as u64;
+        let st = c2.pool.stats();
+        let used = st.used_memory as u64;
         fin = [packed, count as u64, used];
-        fragv = vec![c2.pool.stats().fragment_size as u64];
         let owned: BTreeSet<u64> = o.held.iter().flatten().cloned().collect();
+        let carved: BTreeSet<u64> = (0..).map(|i| i * bs as u64).take_while(|&x| x + bs as u64 <= used).collect();
+        if used % bs as u64 != 0 || used as usize > cap { f.push((None, format!("used_memory {} is not a number of {}-byte blocks inside the {}-byte arena", used, bs, cap))); }
+        for b in &o.ever { if !carved.contains(b) { f.push((None, format!("block {} was handed out but does not lie on the {}-byte grid below used_memory {}", b, bs, used))); } }
+        if carved.len() != o.ever.len() { f.push((None, format!("{} blocks were carved from the arena but {} were handed to a thread", carved.len(), o.ever.len()))); }
+        if huge {
+            if st.huge_node_count as u64 != o.frees || st.huge_size_sum as u64 != o.frees * bs as u64 || st.fragment_size as u64 != o.frees * bs as u64 {
+                f.push((None, format!("huge_node_count {} huge_size_sum {} fragment_size {} after {} frees of {}-byte huge blocks", st.huge_node_count, st.huge_size_sum, st.fragment_size, o.frees, bs)));
+            }
+            return f;
+        }
+        fragv = vec![st.fragment_size as u64];
         let link = |x: u64| c2.pool.verif_read_link(x as u32).map(|v| v as u64);
-        match walk_free(head as u64, u32::MAX as u64, &link, &o.ever, &owned, o.ever.len()) {
+        match walk_free(head as u64, u32::MAX as u64, &link, &carved, &owned, carved.len()) {
             Ok(l) => {
                 if l.len() as u64 != count as u64 { f.push((None, format!("count = {} but the free list has {} blocks at quiescence", count, l.len()))); }
-                for b in &o.ever { if !owned.contains(b) && !l.contains(b) { f.push((None, format!("block {} is neither owned nor on the free list: lost", b))); } }
-                let frag = c2.pool.stats().fragment_size as u64;
+                for b in &carved { if !owned.contains(b) && !l.contains(b) { f.push((None, format!("block {} is neither owned nor on the free list: lost", b))); } }
+                let frag = st.fragment_size as u64;
                 if frag != l.len() as u64 * bs as u64 { f.push((None, format!("fragment_size {} != free blocks {} x {}", frag, l.len(), bs))); }
                 free = Some(l);
             }
@@ -730,41 +1109,75 @@ fn run_fl(cx: &mut Ctx, size: usize, slots: usize, progs: &[Vec<Op>], sched: &[u
     let out = controlled_run(cell.clone(), progs, sched, &smap, &mut NoWatch, &mut inspect, &scr);
     cx.sum.dist_max("max_steps_controlled", out.eff.len() as u64);
     if out.notes.iter().any(|&(_, s, v)| (s == vs::FL_POP_CAS || s == vs::FL_PUSH_CAS) && v == 0) { cx.sum.dist("runs_with_failed_cas"); }
+    if huge { cx.sum.dist("fivelevel_huge_block_runs"); }
     for (cl, d) in &out.fails { cx.sum.fail(cellname, cl.as_deref(), cj.clone(), d); }
-    if !out.aborted && !fragv.is_empty() { emit_coq(cx, 1, bs as u64, cap as u64, progs.len(), &out, fin, &free, &fragv, None, &cj, force); }
+    if !out.aborted && !fragv.is_empty() && !out.unmodelled && !huge { emit_coq(cx, 1, bs as u64, cap as u64, progs.len(), &out, fin, &free, &fragv, None, &cj, force); }
 }
 
-/// Size classes of a FixedCapacityMemoryPool with max_block_size 64 and alignment 8: 8, 16, ..., 64.
+/// Size classes of a FixedCapacityMemoryPool with alignment 8 and max_block_size <= 128: 8, 16, ..., max_block_size.
 const FC_MAXB: usize = 64;
-const FC_NCLS: usize = 8;
-fn fc_class(size: usize) -> usize { (size.clamp(1, FC_MAXB) + 7) / 8 - 1 }
+fn fc_class(size: usize, maxb: usize) -> usize { (size.clamp(1, maxb) + 7) / 8 - 1 }
+
+fn run_fc(cx: &mut Ctx, sizes: &[usize], clear: bool, slots: usize, progs: &[Vec<Op>], sched: &[usize], force: bool) {
+    run_fc_v(cx, sizes, clear, slots, &Value::Null, progs, sched, force)
+}
 
 /// FixedCapacityMemoryPool under a controlled schedule: the oracle, and every run is replayed on the
 /// model of coq/C08/ModelFixedCap.v (thread t asks for `sizes[t % len]` bytes, so several classes are in play).
-fn run_fc(cx: &mut Ctx, sizes: &[usize], clear: bool, slots: usize, progs: &[Vec<Op>], sched: &[usize], force: bool) {
+/// Variant fields: `maxb` / `align` (max_block_size, alignment), `lazy` (eager_allocation = false: the first
+/// allocation creates the arena), `nostats`, `preset` (1 small_objects(), 2 medium_objects(), 3 realtime(),
+/// 4 secure(), 5 default(), as they are: thousands of blocks, oracle only), `util` (threads also stop in front of
+/// the store of the utilization gauge).
+fn run_fc_v(cx: &mut Ctx, sizes: &[usize], clear: bool, slots: usize, v: &Value, progs: &[Vec<Op>], sched: &[usize], force: bool) {
     let cellname = "FixedCapacityMemoryPool/controlled";
-    let sizes: Vec<usize> = if sizes.is_empty() { vec![40] } else { sizes.iter().map(|&x| x.clamp(1, FC_MAXB)).collect() };
+    let preset = v["preset"].as_u64().unwrap_or(0);
+    let mut cfg = match preset {
+        1 => FixedCapacityPoolConfig::small_objects(),
+        2 => FixedCapacityPoolConfig::medium_objects(),
+        3 => FixedCapacityPoolConfig::realtime(),
+        4 => FixedCapacityPoolConfig::secure(),
+        5 => FixedCapacityPoolConfig::default(),
+        _ => FixedCapacityPoolConfig { max_block_size: FC_MAXB, total_blocks: slots.max(1), alignment: 8, enable_stats: true, eager_allocation: true, secure_clear: clear },
+    };
+    if preset == 0 {
+        if let Some(a) = v["align"].as_u64() { if a.is_power_of_two() && (8..=256).contains(&a) { cfg.alignment = a as usize; } }
+        if let Some(m) = v["maxb"].as_u64() { let m = (m as usize).clamp(16, 1 << 16); cfg.max_block_size = (m + cfg.alignment - 1) / cfg.alignment * cfg.alignment; }
+        if v["lazy"].as_bool().unwrap_or(false) { cfg.eager_allocation = false; }
+        if v["nostats"].as_bool().unwrap_or(false) { cfg.enable_stats = false; }
+    }
+    let maxb = cfg.max_block_size;
+    let total = cfg.total_blocks;
+    let clear = cfg.secure_clear;
+    let modelled = preset == 0 && cfg.alignment == 8 && maxb <= 128 && cfg.enable_stats;
+    let park_util = v["util"].as_bool().unwrap_or(false);
+    let sizes: Vec<usize> = if sizes.is_empty() { vec![40.min(maxb)] } else { sizes.iter().map(|&x| x.clamp(1, maxb)).collect() };
     let mut cj = case_json("FC", sizes[0], slots, progs, sched);
     cj["sizes"] = json!(sizes);
     cj["clear"] = json!(clear);
+    merge_variant(&mut cj, v);
     cx.sum.cell_status(cellname, "M+S");
     cx.sum.eval(cellname, &cj.to_string(), progs.iter().filter(|p| !p.is_empty()).count() >= 2);
-    let maxb = FC_MAXB;
-    let cfg = FixedCapacityPoolConfig { max_block_size: maxb, total_blocks: slots.max(1), alignment: 8, enable_stats: true, eager_allocation: true, secure_clear: clear };
+    if preset != 0 { cx.sum.dist("fixedcap_preset_runs"); }
     let pool = match FixedCapacityMemoryPool::new(cfg) { Ok(p) => p, Err(e) => { cx.sum.fail(cellname, None, cj, &format!("pool creation failed: {}", e)); return; } };
-    if pool.verif_num_classes() != FC_NCLS { cx.sum.fail(cellname, None, cj, &format!("the pool has {} size classes, 8 expected for max_block_size 64 / alignment 8", pool.verif_num_classes())); return; }
-    let cell = Arc::new(FcCell { pool, sizes: sizes.clone() });
-    let smap = ScribbleMap { tail: u32::MAX as u64, base: 0, bsize: maxb as u64, slots: slots as u64 };
+    let ncls = pool.verif_num_classes();
+    if modelled && ncls != maxb / 8 { cx.sum.fail(cellname, None, cj, &format!("the pool has {} size classes, {} expected for max_block_size {} / alignment 8", ncls, maxb / 8, maxb)); return; }
+    let cell = Arc::new(FcCell { pool, sizes: sizes.clone(), maxb, total, park_util });
+    let smap = ScribbleMap { tail: u32::MAX as u64, base: 0, bsize: maxb as u64, slots: (slots.min(total)) as u64 };
     let c2 = cell.clone();
     let c3 = cell.clone();
-    let total = slots.max(1);
     let mut fin: Vec<u64> = vec![];
     let mut frees: Vec<Option<Vec<u64>>> = vec![];
     let mut stats5: Vec<u64> = vec![];
     let mut inspect = |o: &RunOut| -> Vec<(Option<String>, String)> {
         let mut f = vec![];
         let owned: BTreeSet<u64> = o.held.iter().flatten().cloned().collect();
+        if c2.pool.verif_base() == 0 {
+            // lazy pool that was never asked for a block: nothing exists yet
+            if !o.ever.is_empty() { f.push((None, "blocks were handed out but the arena does not exist".into())); }
+            return f;
+        }
         let all: BTreeSet<u64> = (0..total as u64).map(|i| i * maxb as u64).collect();
+        for b in &o.ever { if !all.contains(b) { f.push((None, format!("block {} was handed out but is not one of the {} blocks of {} bytes", b, total, maxb))); } }
         let link = |x: u64| c2.pool.verif_read_link(x as u32).map(|v| v as u64);
         let mut free_all: Vec<u64> = vec![];
         let mut broken = false;
@@ -784,7 +1197,8 @@ fn run_fc(cx: &mut Ctx, sizes: &[usize], clear: bool, slots: usize, progs: &[Vec
         if !broken {
             let mut s = BTreeSet::new();
             for b in &free_all { if !s.insert(*b) { f.push((None, format!("block {} is on two free lists", b))); } }
-            for b in &all { if !owned.contains(b) && !s.contains(b) { f.push((None, format!("block {} is neither owned nor on a free list: lost", b))); } }
+            let mut lost = 0;
+            for b in &all { if !owned.contains(b) && !s.contains(b) { lost += 1; if lost <= 3 { f.push((None, format!("block {} is neither owned nor on a free list: lost", b))); } } }
         }
         if let Some(st) = c2.pool.stats() {
             let a = st.allocations.load(Ordering::SeqCst);
@@ -794,6 +1208,16 @@ fn run_fc(cx: &mut Ctx, sizes: &[usize], clear: bool, slots: usize, progs: &[Vec
             if a != o.allocs_ok || d != o.frees || act != owned.len() as u64 {
                 f.push((None, format!("stats allocations={} deallocations={} active={} but {} allocations, {} frees, {} live", a, d, act, o.allocs_ok, o.frees, owned.len())));
             }
+            // (peak_blocks may exceed total_blocks by the number of concurrent frees: a freed block is listed before
+            // active_blocks is decremented, and its next owner increments first - reported, not judged)
+            if stats5[3] < act { f.push((None, format!("peak_blocks = {} with {} live blocks of {}", stats5[3], act, total))); }
+            // what the pool reports about its capacity once every thread has finished
+            let live = owned.len();
+            let avail = c2.pool.available_capacity();
+            if avail != (total - live.min(total)) * maxb { f.push((None, format!("available_capacity() = {} with {} of {} blocks of {} bytes live", avail, live, total, maxb))); }
+            if c2.pool.has_capacity(1) != (live < total) { f.push((None, format!("has_capacity(1) = {} with {} of {} blocks live", c2.pool.has_capacity(1), live, total))); }
+            let util = st.utilization.load(Ordering::SeqCst) as u64;
+            if (a + d) > 0 && util != (live * 10000 / total) as u64 { f.push((None, format!("utilization gauge = {} (percent x 100) at quiescence but {} of {} blocks are live", util, live, total))); }
         }
         f
     };
@@ -813,9 +1237,9 @@ fn run_fc(cx: &mut Ctx, sizes: &[usize], clear: bool, slots: usize, progs: &[Vec
     if out.notes.iter().any(|&(_, s, v)| (s == vs::FC_POP_CAS || s == vs::FC_PUSH_CAS) && v == 0) { cx.sum.dist("runs_with_failed_cas"); }
     if out.notes.iter().any(|&(_, s, _)| s == vs::FC_SPLIT_PEEK) { cx.sum.dist("fc_runs_with_splitting"); }
     for (cl, d) in &out.fails { cx.sum.fail(cellname, cl.as_deref(), cj.clone(), d); }
-    if out.aborted || out.eff.len() > 400 || fin.is_empty() || stats5.is_empty() { return; }
+    if out.aborted || out.eff.len() > 400 || fin.is_empty() || stats5.is_empty() || !modelled || park_util || out.unmodelled { return; }
     if !cx.room("FC", force) { return; }
-    let cls = |t: usize| fc_class(sizes[t % sizes.len()]);
+    let cls = |t: usize| fc_class(sizes[t % sizes.len()], maxb);
     let sc: Vec<String> = out.eff.iter().map(|(t, c)| format!("({}%nat, {})", t, match c {
         Cm::None => "FNone".to_string(),
         Cm::Pop => format!("FPop {}%nat", cls(*t)),
@@ -826,7 +1250,7 @@ fn run_fc(cx: &mut Ctx, sizes: &[usize], clear: bool, slots: usize, progs: &[Vec
     let helds: Vec<String> = out.held.iter().map(|h| coq_n_list(h.iter().map(|&x| x as u128))).collect();
     let frs: Vec<String> = frees.iter().map(|f| coq_opt(f.as_ref().map(|f| coq_n_list(f.iter().map(|&x| x as u128))))).collect();
     let term = format!("XFC ({}%nat, {}, {}, {}, {}%nat, [{}], {}, {}, [{}], [{}], {})",
-        FC_NCLS, maxb, total, coq_bool(clear), progs.len(), sc.join("; "), coq_n_list(notes),
+        ncls, maxb, total, coq_bool(clear), progs.len(), sc.join("; "), coq_n_list(notes),
         coq_n_list(fin.iter().map(|&x| x as u128)), frs.join("; "), helds.join("; "), coq_n_list(stats5.iter().map(|&x| x as u128)));
     let mut c2j = cj.clone();
     c2j["impl_final"] = json!(fin);
@@ -842,8 +1266,33 @@ struct SpWatch {
     loaded: HashMap<usize, u64>,    // tid -> head it loaded (pop)
     read_next: HashMap<usize, u64>, // tid -> next it read (pop)
     push_node: HashMap<usize, u64>,
+    /// the chunk a thread is giving back (it is what the node it pushes carries)
+    freeing: HashMap<usize, u64>,
+    node_chunk: HashMap<u64, u64>,
+    /// threads inside clear(): what they pop is released to the system
+    clearing: BTreeSet<usize>,
+    /// chunks released by clear() whose address has not been handed out again since
+    destroyed: BTreeSet<u64>,
+}
+impl SpWatch {
+    fn new() -> Self {
+        SpWatch { live: BTreeSet::new(), stack: vec![], loaded: HashMap::new(), read_next: HashMap::new(), push_node: HashMap::new(),
+                  freeing: HashMap::new(), node_chunk: HashMap::new(), clearing: BTreeSet::new(), destroyed: BTreeSet::new() }
+    }
 }
 impl Watch for SpWatch {
+    fn on_op_start(&mut self, tid: usize, op: &Op, freed: Option<u64>) {
+        match (op, freed) {
+            (Op::Free(_), Some(b)) => { self.freeing.insert(tid, b); }
+            (Op::Clear, _) => { self.clearing.insert(tid); }
+            _ => {}
+        }
+    }
+    fn on_op_end(&mut self, tid: usize, got: &[u64]) {
+        self.freeing.remove(&tid);
+        self.clearing.remove(&tid);
+        for b in got { self.destroyed.remove(b); }
+    }
     fn pre_turn(&mut self, tid: usize, site: Option<u32>) -> Option<(String, String)> {
         if site == Some(vs::SP_POP_NEXT) {
             if let Some(&h) = self.loaded.get(&tid) {
@@ -871,12 +1320,14 @@ impl Watch for SpWatch {
                 }
                 self.stack.pop();
                 self.live.remove(&h);
+                if let Some(ch) = self.node_chunk.remove(&h) { if self.clearing.contains(&tid) { self.destroyed.insert(ch); } }
             }
             x if x == vs::SP_PUSH_NEXT => { self.push_node.insert(tid, val); }
             x if x == vs::SP_PUSH_CAS && val == 1 => {
                 let a = self.push_node.get(&tid).cloned().unwrap_or(0);
                 self.live.insert(a);
                 self.stack.push(a);
+                if let Some(&ch) = self.freeing.get(&tid) { self.node_chunk.insert(a, ch); }
             }
             _ => {}
         }
@@ -886,27 +1337,59 @@ impl Watch for SpWatch {
 
 struct SharedWatch(Arc<Mutex<SpWatch>>);
 impl Watch for SharedWatch {
+    fn on_op_start(&mut self, tid: usize, op: &Op, freed: Option<u64>) { self.0.lock().unwrap().on_op_start(tid, op, freed) }
+    fn on_op_end(&mut self, tid: usize, got: &[u64]) { self.0.lock().unwrap().on_op_end(tid, got) }
     fn pre_turn(&mut self, tid: usize, site: Option<u32>) -> Option<(String, String)> { self.0.lock().unwrap().pre_turn(tid, site) }
     fn on_note(&mut self, tid: usize, site: u32, val: u64) -> Option<(String, String)> { self.0.lock().unwrap().on_note(tid, site, val) }
 }
 
-/// SecureMemoryPool (thread-local caches in front of the shared Treiber stack): the oracle, and every run that is
-/// not cut short by one of the recorded stack findings is replayed on the model of coq/C08/ModelSecure.v.
-/// `preset` 0: SecurePoolConfig::new(64, 100, 8); 1: small_secure() (batch_size 16) - both with the given
-/// local_cache_size, so that local_cache_size < batch_size - 1 and chunks spill to the shared stack.
 fn run_sp(cx: &mut Ctx, cache: usize, preset: u64, progs: &[Vec<Op>], sched: &[usize], force: bool) {
+    run_sp_v(cx, cache, &json!({"preset": preset}), progs, sched, force)
+}
+
+/// The configuration of a SecureMemoryPool case: `preset` 0 SecurePoolConfig::new(64, 100, 8), 1 small_secure()
+/// (batch_size 16), 2 medium_secure() (64 KiB chunks, alignment 16), 3 large_secure() (1 MiB chunks, alignment 32) -
+/// all with the given local_cache_size - and the option bits `opts`: 1 zero_on_alloc, 2 batch_size 2, 4 alignment 64,
+/// 8 guard pages, 16 SIMD operations with threshold 16, 32 cache alignment with the sequential access pattern,
+/// 64 hot/cold separation with threshold 1, 128 NUMA awareness, 256 huge pages with threshold 1, 512 prefetch
+/// distance 1, 1024 zero_on_free off.  The options that are not named are switched off as before.
+fn sp_config(cache: usize, preset: u64, opts: u64) -> SecurePoolConfig {
+    let base = match preset { 1 => SecurePoolConfig::small_secure(), 2 => SecurePoolConfig::medium_secure(), 3 => SecurePoolConfig::large_secure(), _ => SecurePoolConfig::new(64, 100, 8) };
+    let mut cfg = base.with_local_cache_size(cache);
+    cfg = if opts & 32 != 0 { cfg.with_cache_alignment(true).with_access_pattern(zipora::memory::cache_layout::AccessPattern::Sequential) } else { cfg.with_cache_alignment(false).with_cache_config(None) };
+    cfg = cfg.with_numa_awareness(opts & 128 != 0);
+    cfg = if opts & 64 != 0 { cfg.with_hot_cold_separation(true).with_hot_data_threshold(1) } else { cfg.with_hot_cold_separation(false) };
+    cfg = if opts & 256 != 0 { cfg.with_huge_pages(true).with_huge_page_threshold(1) } else { cfg.with_huge_pages(false) };
+    cfg = if opts & 16 != 0 { cfg.with_simd_ops(true).with_simd_threshold(16) } else { cfg.with_simd_ops(false) };
+    if opts & 1 != 0 { cfg = cfg.with_zero_on_alloc(true); }
+    if opts & 2 != 0 { cfg = cfg.with_batch_size(2); }
+    if opts & 4 != 0 { cfg = cfg.with_alignment(64); }
+    if opts & 8 != 0 { cfg = cfg.with_guard_pages(true); }
+    if opts & 512 != 0 { cfg = cfg.with_prefetch_distance(1); }
+    if opts & 1024 != 0 { cfg = cfg.with_zero_on_free(false); }
+    cfg
+}
+
+/// SecureMemoryPool (thread-local caches in front of the shared Treiber stack): the oracle, and every run that is
+/// not cut short by one of the recorded stack findings is replayed on the model of coq/C08/ModelSecure.v (runs with
+/// a bulk allocation or a clear() excepted: the model has neither).  Variant fields: `preset`, `opts` (sp_config).
+fn run_sp_v(cx: &mut Ctx, cache: usize, v: &Value, progs: &[Vec<Op>], sched: &[usize], force: bool) {
     let cellname = "SecureMemoryPool/controlled";
+    let preset = v["preset"].as_u64().unwrap_or(0);
+    let opts = v["opts"].as_u64().unwrap_or(0);
     let mut cj = case_json("SP", cache, 0, progs, sched);
-    if preset != 0 { cj["preset"] = json!(preset); }
+    merge_variant(&mut cj, v);
+    if preset == 0 { if let Some(o) = cj.as_object_mut() { o.remove("preset"); } }
     cx.sum.cell_status(cellname, "M+S");
     cx.sum.eval(cellname, &cj.to_string(), progs.iter().filter(|p| !p.is_empty()).count() >= 2);
-    let base = if preset == 1 { SecurePoolConfig::small_secure() } else { SecurePoolConfig::new(64, 100, 8) };
-    let cfg = base.with_local_cache_size(cache).with_cache_alignment(false)
-        .with_cache_config(None).with_numa_awareness(false).with_hot_cold_separation(false).with_huge_pages(false).with_simd_ops(false);
+    let cfg = sp_config(cache, preset, opts);
+    let chunk = cfg.chunk_size;
+    if preset >= 2 { cx.sum.dist("secure_runs_with_big_chunk_presets"); }
+    if opts != 0 { cx.sum.dist("secure_runs_with_options"); }
     let pool = match SecureMemoryPool::new(cfg) { Ok(p) => p, Err(e) => { cx.sum.fail(cellname, None, cj, &format!("pool creation failed: {}", e)); return; } };
-    let cell = Arc::new(SpCell { pool: pool.clone() });
+    let cell = Arc::new(SpCell { pool: pool.clone(), chunk });
     let smap = ScribbleMap { tail: 0, base: 0, bsize: 1, slots: 256 };
-    let w = Arc::new(Mutex::new(SpWatch { live: BTreeSet::new(), stack: vec![], loaded: HashMap::new(), read_next: HashMap::new(), push_node: HashMap::new() }));
+    let w = Arc::new(Mutex::new(SpWatch::new()));
     let w2 = w.clone();
     let p2 = pool.clone();
     let mut stack_chunks: Option<Vec<u64>> = None;
@@ -932,17 +1415,25 @@ fn run_sp(cx: &mut Ctx, cache: usize, preset: u64, progs: &[Vec<Op>], sched: &[u
         for b in &in_stack { *place.entry(*b).or_insert(0) += 1; }
         for c in &o.exit_info { for b in c { *place.entry(*b).or_insert(0) += 1; } }
         for b in &o.ever {
+            let gone = w.destroyed.contains(b);
             match place.get(b).cloned().unwrap_or(0) {
-                1 => {}
+                1 if !gone => {}
+                0 if gone => {}
                 0 => f.push((None, format!("chunk {:#x} was freed but is in no cache and not on the shared stack: lost", b))),
-                k => f.push((None, format!("chunk {:#x} is in {} places at once", b, k))),
+                k => f.push((None, format!("chunk {:#x} is in {} places at once{}", b, k, if gone { " although clear() released it" } else { "" }))),
             }
         }
+        for b in place.keys() { if !o.ever.contains(b) { f.push((None, format!("the pool holds chunk {:#x}, which no thread was ever handed", b))); } }
         let st = p2.stats();
         if st.alloc_count != o.alloc_calls || st.dealloc_count != o.frees {
             f.push((None, format!("alloc_count={} dealloc_count={} after {} allocate calls and {} frees", st.alloc_count, st.dealloc_count, o.alloc_calls, o.frees)));
         }
         if st.pool_hits + st.pool_misses != st.alloc_count { f.push((None, format!("pool_hits {} + pool_misses {} != alloc_count {}", st.pool_hits, st.pool_misses, st.alloc_count))); }
+        if st.local_cache_hits + st.cross_thread_steals != st.pool_hits { f.push((None, format!("local_cache_hits {} + cross_thread_steals {} != pool_hits {}", st.local_cache_hits, st.cross_thread_steals, st.pool_hits))); }
+        if st.hot_data_allocs != o.hot_calls || st.hot_data_allocs + st.cold_data_allocs != o.allocs_ok {
+            f.push((None, format!("hot_data_allocs {} + cold_data_allocs {} after {} hinted and {} plain successful allocations", st.hot_data_allocs, st.cold_data_allocs, o.hot_calls, o.allocs_ok - o.hot_calls.min(o.allocs_ok))));
+        }
+        if st.double_free_detected != 0 || st.corruption_detected != 0 { f.push((None, format!("double_free_detected = {} corruption_detected = {} although every chunk was freed once and none was damaged", st.double_free_detected, st.corruption_detected))); }
         if p2.verif_active_len() != owned.len() { f.push((None, format!("active-allocation table has {} entries, {} chunks are live", p2.verif_active_len(), owned.len()))); }
         if let Err(e) = p2.validate() { f.push((None, format!("validate() fails at quiescence: {}", e))); }
         stack_chunks = Some(in_stack);
@@ -966,8 +1457,9 @@ fn run_sp(cx: &mut Ctx, cache: usize, preset: u64, progs: &[Vec<Op>], sched: &[u
         };
         cx.sum.fail(cellname, class.as_deref(), cj.clone(), d);
     }
+    if out.clears > 0 { cx.sum.dist("secure_runs_with_clear"); }
     // Coq case: chunks are named by their serial number (order of creation = order of first appearance)
-    if out.aborted || out.eff.len() > 400 || counters.is_empty() { return; }
+    if out.aborted || out.eff.len() > 400 || counters.is_empty() || out.unmodelled { return; }
     let stack_chunks = match stack_chunks { Some(x) => x, None => return };
     if !cx.room("SP", force) { return; }
     let serial: HashMap<u64, u64> = out.order.iter().enumerate().map(|(i, &a)| (a, i as u64)).collect();
@@ -1001,21 +1493,45 @@ impl Cell for MpCell {
     fn alloc(&self) -> Result<(Self::H, u64), String> {
         match self.pool.allocate() { Ok(p) => Ok((p, p.as_ptr() as usize as u64)), Err(e) => Err(e.to_string()) }
     }
-    fn free(&self, h: Self::H) { let _ = self.pool.deallocate(h); }
+    fn free(&self, h: Self::H) -> Option<Self::H> { if self.pool.deallocate(h).is_err() { Some(h) } else { None } }
+    fn clear(&self) -> Result<(), String> { self.pool.clear().map_err(|e| e.to_string()) }
+    // clear() blocks on the queue mutex: not while a parked thread holds it
+    fn clear_would_block(&self, parked: &[Option<u32>]) -> bool {
+        parked.iter().any(|s| *s == Some(vs::MP_ALLOC_POP) || *s == Some(vs::MP_FREE_PUSH))
+    }
     fn scribble(&self, h: &mut Self::H, v: u64) { unsafe { std::ptr::write_bytes(h.as_ptr(), v as u8, self.csize); } }
+    fn check(&self, _held: &mut [Self::H]) -> Vec<String> {
+        let mut f = vec![];
+        let st = self.pool.stats();
+        if st.pool_hits + st.pool_misses > st.alloc_count { f.push(format!("pool_hits {} + pool_misses {} exceed alloc_count {}", st.pool_hits, st.pool_misses, st.alloc_count)); }
+        if st.available != st.chunks as u64 * self.csize as u64 { f.push(format!("stats.available = {} for {} pooled chunks of {}", st.available, st.chunks, self.csize)); }
+        if self.pool.config().chunk_size != self.csize { f.push("config().chunk_size changed".into()); }
+        f
+    }
 }
 unsafe impl Send for MpCell {}
 unsafe impl Sync for MpCell {}
 
+fn run_mp(cx: &mut Ctx, csize: usize, maxc: usize, progs: &[Vec<Op>], sched: &[usize], force: bool) {
+    run_mp_v(cx, csize, maxc, &Value::Null, progs, sched, force)
+}
+
 /// MemoryPool (pool.rs) under a controlled schedule: threads are parked before try_lock, under the queue lock,
 /// before the miss / direct-release paths and before the byte accounting.  Oracle: ownership, and at quiescence the
-/// byte accounting, the counters, the capacity and the pooled chunks; every run is replayed on coq/C08/ModelMemPool.v.
-fn run_mp(cx: &mut Ctx, csize: usize, maxc: usize, progs: &[Vec<Op>], sched: &[usize], force: bool) {
+/// byte accounting, the counters, the capacity and the pooled chunks; every run is replayed on coq/C08/ModelMemPool.v
+/// (runs with a clear() excepted).  Variant fields: `preset` (1 PoolConfig::small(), 2 medium(), 3 large()), `align`.
+fn run_mp_v(cx: &mut Ctx, csize: usize, maxc: usize, v: &Value, progs: &[Vec<Op>], sched: &[usize], force: bool) {
     let cellname = "MemoryPool/controlled";
-    let cj = case_json("MP", csize, maxc, progs, sched);
+    let preset = v["preset"].as_u64().unwrap_or(0);
+    let mut pc = match preset { 1 => PoolConfig::small(), 2 => PoolConfig::medium(), 3 => PoolConfig::large(), _ => PoolConfig::new(csize, maxc, 8) };
+    if let Some(a) = v["align"].as_u64() { if a.is_power_of_two() && a <= 4096 { pc.alignment = a as usize; } }
+    let (csize, maxc) = (pc.chunk_size, pc.max_chunks);
+    let mut cj = case_json("MP", csize, maxc, progs, sched);
+    merge_variant(&mut cj, v);
     cx.sum.cell_status(cellname, "M+S");
     cx.sum.eval(cellname, &cj.to_string(), progs.iter().filter(|p| !p.is_empty()).count() >= 2);
-    let pool = match MemoryPool::new(PoolConfig::new(csize, maxc, 8)) { Ok(p) => p, Err(e) => { cx.sum.fail(cellname, None, cj, &format!("pool creation failed: {}", e)); return; } };
+    if preset != 0 { cx.sum.dist("mempool_preset_runs"); }
+    let pool = match MemoryPool::new(pc) { Ok(p) => p, Err(e) => { cx.sum.fail(cellname, None, cj, &format!("pool creation failed: {}", e)); return; } };
     let cell = Arc::new(MpCell { pool, csize });
     let smap = ScribbleMap { tail: 0, base: 0, bsize: 1, slots: 256 };
     let c2 = cell.clone();
@@ -1054,8 +1570,10 @@ fn run_mp(cx: &mut Ctx, csize: usize, maxc: usize, progs: &[Vec<Op>], sched: &[u
     cx.sum.dist_max("max_steps_controlled", out.eff.len() as u64);
     if out.notes.iter().any(|&(_, s, v)| (s == vs::MP_ALLOC_LOCK || s == vs::MP_FREE_LOCK) && v == 0) { cx.sum.dist("mempool_runs_with_busy_lock"); }
     if out.eff_site.iter().any(|s| *s == Some(vs::MP_FREE_DIRECT)) { cx.sum.dist("mempool_runs_with_direct_release"); }
+    if out.clears > 0 { cx.sum.dist("mempool_runs_with_clear"); }
+    if out.clears_skipped > 0 { cx.sum.dist("mempool_clear_skipped_lock_held"); }
     for (cl, d) in &out.fails { cx.sum.fail(cellname, cl.as_deref(), cj.clone(), d); }
-    if out.aborted || out.eff.len() > 400 || counters.is_empty() { return; }
+    if out.aborted || out.eff.len() > 400 || counters.is_empty() || out.unmodelled { return; }
     let queue = match queue { Some(q) => q, None => return };
     if !cx.room("MP", force) { return; }
     // chunks are named by serial numbers in order of creation (the turn that passes the miss point); the system
@@ -1096,15 +1614,15 @@ fn run_case(cx: &mut Ctx, c: &Value, force: bool) {
     let (cell, size, slots, progs, sched) = parse_case(c);
     if progs.is_empty() { return; }
     match cell.as_str() {
-        "LF" => run_lf(cx, size.clamp(1, 8192), slots.clamp(1, 64), c["zero"].as_bool().unwrap_or(false), &progs, &sched, force),
-        "FL" => run_fl(cx, size.clamp(1, 1024), slots.clamp(1, 64), &progs, &sched, force),
+        "LF" => run_lf_v(cx, size.clamp(1, 1 << 20), slots.clamp(1, 64), c, &progs, &sched, force),
+        "FL" => run_fl_v(cx, size.clamp(1, 1 << 20), slots.clamp(1, 64), c, &progs, &sched, force),
         "FC" => {
             let sizes: Vec<usize> = c["sizes"].as_array().map(|a| a.iter().filter_map(|x| x.as_u64().map(|v| v as usize)).collect()).unwrap_or_default();
             let sizes = if sizes.is_empty() { vec![size] } else { sizes };
-            run_fc(cx, &sizes, c["clear"].as_bool().unwrap_or(false), slots.clamp(1, 64), &progs, &sched, force)
+            run_fc_v(cx, &sizes, c["clear"].as_bool().unwrap_or(false), slots.clamp(1, 64), c, &progs, &sched, force)
         }
-        "MP" => run_mp(cx, size.clamp(1, 4096), slots.clamp(0, 64), &progs, &sched, force),
-        "SP" => run_sp(cx, size.clamp(1, 8), c["preset"].as_u64().unwrap_or(0), &progs, &sched, force),
+        "MP" => run_mp_v(cx, size.clamp(1, 1 << 20), slots.clamp(0, 128), c, &progs, &sched, force),
+        "SP" => run_sp_v(cx, size.clamp(0, 8), c, &progs, &sched, force),
         _ => {}
     }
 }
@@ -1231,7 +1749,7 @@ fn stress_case_inproc(cx: &mut Ctx, c: &Value) {
     let hold = c["hold"].as_u64().unwrap_or(4) as usize;
     cx.sum.cell_status(&cell, "S-only");
     cx.sum.eval(&cell, &c.to_string(), nthr >= 2);
-    let fails: Vec<String> = match cell.as_str() {
+    let fails: Vec<String> = if let Some(f) = wide::stress_wide(cell.as_str(), c) { f } else { match cell.as_str() {
         "stress/LockFreeMemoryPool" => stress_lf(nthr, iters, seed, size, hold, c["zero"].as_bool().unwrap_or(false)),
         "stress/five_level::LockFreePool" => stress_fl(nthr, iters, seed, size, hold, 0),
         "stress/five_level::MutexBasedPool" => stress_fl(nthr, iters, seed, size, hold, 1),
@@ -1242,7 +1760,7 @@ fn stress_case_inproc(cx: &mut Ctx, c: &Value) {
         "stress/MemoryPool" => stress_mp(nthr, iters, seed, hold),
         "stress/global_memory_pools" => stress_gp(nthr, iters, seed, hold),
         _ => vec![],
-    };
+    } };
     for d in fails {
         let class = classify_stress(&cell, &d);
         cx.sum.fail(&cell, class, c.clone(), &d);
@@ -1254,7 +1772,7 @@ fn classify_stress(cell: &str, d: &str) -> Option<&'static str> {
     // stack (findings secure_stack_*): the symptoms are a crash, a hang, a cycle, a foreign or duplicated
     // chunk, or chunks missing from the stack.  Counter mismatches are never excused, and the controlled
     // SecureMemoryPool cell decides chunk conservation deterministically without this class.
-    if (cell == "stress/SecureMemoryPool" || cell == "stress/global_secure_pools")
+    if (cell == "stress/SecureMemoryPool" || cell == "stress/global_secure_pools" || cell == "stress/SecureMemoryPool/entry_points")
         && (d == "died" || d == "timeout" || d.contains("cycle") || d.contains("corrupt node") || d.contains("handed to thread")
             || d.contains("overwritten") || d.contains("shared stack longer") || (d.contains("lost") && !d.contains(": -"))) {
         return Some("secure_stack_aba");
@@ -1622,10 +2140,10 @@ fn stress_gp(nthr: usize, iters: usize, seed: u64, hold: usize) -> Vec<String> {
 pub fn run(args: &Args) {
     if std::env::var("ZV_C08_DEBUG").is_ok() { let _ = std::panic::take_hook(); }
     let mut cx = Ctx {
-        sum: Summary::new("C08", "controlled schedules (real threads parked at every schedule point of the zipora_verif hooks): corpus witnesses, every interleaving of two threads x one operation on a pre-filled free list, every interleaving of short pop/push pairs, stalled-operation windows (one thread stops after k steps of an operation while another runs a whole program that drains and refills the list), LockFreeMemoryPool with zero_on_free through deallocate_with_zero (three and more blocks of a class freed and reallocated), SecureMemoryPool with local_cache_size < batch_size - 1 spilling to the shared stack and refilling another thread, MemoryPool with a thread parked under the queue lock, then random programs of 2-3 threads (alloc / free k-th held / owner overwrites the link word or header / foreign malloc; per-thread request sizes for the fixed-capacity pool) under burst-biased random schedules, block size and arena size varied so that exhaustion and reuse occur; free-running stress with an ownership table for every pool; a case is non-trivial when at least two threads execute operations; distinct = distinct (cell, programs, schedule)"),
+        sum: Summary::new("C08", "controlled schedules (real threads parked at every schedule point of the zipora_verif hooks): corpus witnesses, every interleaving of two threads x one operation on a pre-filled free list, every interleaving of short pop/push pairs, stalled-operation windows (one thread stops after k steps of an operation while another runs a whole program that drains and refills the list), LockFreeMemoryPool with zero_on_free through deallocate_with_zero (three and more blocks of a class freed and reallocated), SecureMemoryPool with local_cache_size < batch_size - 1 spilling to the shared stack and refilling another thread, MemoryPool with a thread parked under the queue lock, the oracle-breadth families of c08_wide.rs (bulk allocation under exhaustion and stalled part-way, compare-exchange retry storms with max_cas_retries 1-3 / back-off / 70 lost rounds, RAII guards, presets of every pool, size-class boundaries and the large-block / huge paths, five-level pools through AdaptiveFiveLevelPool::with_level + FiveLevelPoolHandle, fixed-capacity pools of other geometries / lazy arena / no statistics / utilization gauge, SecureMemoryPool hinted and bulk allocation, clear() racing with pops and pushes, observers in mid-history, cache size 0, 64 KiB / 1 MiB presets, builder options, MemoryPool::clear() between parked operations and presets), then random programs of 2-3 threads (alloc / free k-th held / owner overwrites the link word or header / foreign malloc; per-thread request sizes for the fixed-capacity pool; in every other case also bulk / hinted allocation, clear(), observers and a drawn configuration variant) under burst-biased random schedules, block size and arena size varied so that exhaustion and reuse occur; free-running stress with an ownership table for every pool and for every public way into it (bulk, guards, handles, presets as they are, clear(), global pools of all classes); a case is non-trivial when at least two threads execute operations; distinct = distinct (cell, programs, schedule)"),
         shards: CoqShards::new(HEADER, 250),
         coq_used: HashMap::new(),
-        out: args.out.clone(), child_seq: 0, thorough: args.thorough,
+        out: args.out.clone(), child_seq: 0, thorough: args.thorough, wide: false,
     };
     if let Some(f) = &args.replay {
         let txt = std::fs::read_to_string(f).expect("replay file");
@@ -1756,7 +2274,12 @@ pub fn run(args: &Args) {
             }
         }
     }
-    // 3. random programs and schedules
+    // 2f. oracle breadth: the secondary entry points, presets, options and thresholds (c08_wide.rs)
+    cx.wide = true;
+    wide::families(&mut cx, &mut rng, args.thorough);
+    cx.wide = false;
+    // 3. random programs and schedules; every other case mixes the operations of the secondary entry points in
+    //    (bulk allocation, hinted allocation, clear(), observers) and draws a configuration variant
     let nrand = if args.thorough { 6000 } else { 800 };
     for k in 0..nrand {
         let n = if rng.chance(1, 3) { 3 } else { 2 };
@@ -1765,22 +2288,45 @@ pub fn run(args: &Args) {
         let plen = rng.range(2, 9) as usize;
         let progs: Vec<Vec<Op>> = (0..n).map(|_| gen_prog(&mut rng, plen, false, slots)).collect();
         let sched = gen_sched(&mut rng, n, plen * 6 * n);
+        let widek = k % 10 >= 5;
+        cx.wide = widek;
         match k % 5 {
             4 => {
-                let progs: Vec<Vec<Op>> = (0..n).map(|_| gen_prog(&mut rng, plen + 2, false, slots)).collect();
-                run_mp(&mut cx, *rng.pick(&[8usize, 64, 100]), *rng.pick(&[0usize, 1, 2, 3]), &progs, &sched, false)
+                let progs: Vec<Vec<Op>> = (0..n).map(|_| if widek { wide::gen_prog_wide(&mut rng, plen + 2, slots, false, true, false) } else { gen_prog(&mut rng, plen + 2, false, slots) }).collect();
+                let v = if widek && rng.chance(1, 4) { json!({"preset": rng.range(1, 3)}) } else if widek && rng.chance(1, 4) { json!({"align": 64}) } else { Value::Null };
+                run_mp_v(&mut cx, *rng.pick(&[8usize, 64, 100]), *rng.pick(&[0usize, 1, 2, 3]), &v, &progs, &sched, false)
+            }
+            0 if widek => {
+                let progs: Vec<Vec<Op>> = (0..n).map(|_| wide::gen_prog_wide(&mut rng, plen, slots, true, false, false)).collect();
+                let size = *rng.pick(&[1usize, 64, 129, 136, 1000, 4097, 8192]);
+                let v = match rng.below(6) { 0 => json!({"raii": true}), 1 => json!({"preset": rng.range(1, 3)}), 2 => json!({"sizes": [size, size.saturating_sub(3).max(1), size]}), 3 => json!({"zero": true}), 4 => json!({"retries": rng.range(1, 3)}), _ => json!({}) };
+                run_lf_v(&mut cx, size, slots, &v, &progs, &sched, false)
             }
             0 => run_lf(&mut cx, size, slots, k % 12 == 8, &progs, &sched, false),
+            1 if widek => {
+                let progs: Vec<Vec<Op>> = (0..n).map(|_| wide::gen_prog_wide(&mut rng, plen, slots, false, false, false)).collect();
+                let v = match rng.below(6) { 0 => json!({"handle": true}), 1 => json!({"preset": rng.range(1, 4)}), 2 => json!({"align": *rng.pick(&[4u64, 16, 64])}), 3 => json!({"maxfast": 64, "handle": true}), 4 => json!({"align": 16, "handle": true}), _ => json!({}) };
+                run_fl_v(&mut cx, size.min(1000), slots, &v, &progs, &sched, false)
+            }
             1 => run_fl(&mut cx, size.min(1000), slots, &progs, &sched, false),
             2 => {
+                let progs: Vec<Vec<Op>> = if widek { (0..n).map(|_| wide::gen_prog_wide(&mut rng, plen, slots, false, false, false)).collect() } else { progs.clone() };
                 let sizes: Vec<usize> = match rng.below(3) { 0 => vec![size.min(64)], 1 => vec![size.min(64), *rng.pick(&[1usize, 9, 24, 64])], _ => vec![*rng.pick(&[8usize, 16]), *rng.pick(&[17usize, 33]), *rng.pick(&[50usize, 64])] };
-                run_fc(&mut cx, &sizes, rng.chance(1, 5), slots, &progs, &sched, false)
+                let v = if !widek { Value::Null } else { match rng.below(6) { 0 => json!({"maxb": 128}), 1 => json!({"lazy": true}), 2 => json!({"align": 16}), 3 => json!({"util": true}), 4 => json!({"nostats": true}), _ => json!({}) } };
+                let sizes = if v["maxb"].is_u64() { vec![sizes[0], *rng.pick(&[100usize, 128, 65])] } else { sizes };
+                run_fc_v(&mut cx, &sizes, rng.chance(1, 5), slots, &v, &progs, &sched, false)
+            }
+            _ if widek => {
+                let progs: Vec<Vec<Op>> = (0..n).map(|_| wide::gen_prog_wide(&mut rng, plen + 3, slots, true, true, true)).collect();
+                let v = json!({"preset": *rng.pick(&[0u64, 0, 1, 1, 2, 3]), "opts": if rng.chance(1, 2) { 0 } else { rng.below(2048) }});
+                run_sp_v(&mut cx, *rng.pick(&[0usize, 1, 1, 2, 4]), &v, &progs, &sched, false);
             }
             _ => {
                 let progs: Vec<Vec<Op>> = (0..n).map(|_| gen_prog(&mut rng, plen + 3, true, slots)).collect();
                 run_sp(&mut cx, *rng.pick(&[1usize, 1, 2, 4]), (k / 4) % 3 / 2, &progs, &sched, false);
             }
         }
+        cx.wide = false;
         if k < 3 { cx.sum.sample(json!({"programs": progs_json(&progs), "schedule_prefix": sched.iter().take(24).collect::<Vec<_>>()})); }
     }
     // 4. stress
@@ -1794,6 +2340,18 @@ pub fn run(args: &Args) {
                            "size": if rep % 2 == 0 { 64 } else { 24 }, "hold": if rep % 2 == 0 { 2 } else { 5 }, "cache": if rep % 2 == 0 { 1 } else { 3 },
                            "zero": rep % 2 == 1});
             stress_case(&mut cx, &c);
+        }
+    }
+    // 4b. the free-running cells of the secondary entry points, one run per variant (presets as they are)
+    for (i, cell) in wide::WIDE_STRESS_CELLS.iter().enumerate() {
+        let nvar = match i { 0 => 4, 1 => 6, 2 => 7, 3 => 6, _ => 5 };
+        let reps = if args.thorough { 3 } else { 1 };
+        for variant in 0..nvar {
+            for rep in 0..reps {
+                let c = json!({"cell": cell, "threads": if (variant + rep) % 2 == 0 { 4 } else { 3 }, "iters": iters / 2, "seed": args.seed * 100 + i as u64 * 10 + rep as u64 + variant as u64,
+                               "hold": if (variant + rep) % 2 == 0 { 3 } else { 5 }, "variant": variant});
+                stress_case(&mut cx, &c);
+            }
         }
     }
     cx.sum.dist_max("coq_cases", cx.shards.len() as u64);
